@@ -128,9 +128,12 @@ def timeOfParsed (w : TimeWorld) (loc : C18.Loc) (p : C18.Parsed) : Comp TimeR :
       let z ← lookupL w loc u
       pure ⟨u, p.dt.ns, z.off, z.name⟩
     | none =>
-      -- "Otherwise, create fake zone with unknown offset."
+      -- "Otherwise, create fake zone with unknown offset."  Only `t.setLoc(FixedZone(zoneName, offset))`: the
+      -- instant is NOT shifted (no `addSec`), also for `GMT+3` – the wall clock is read as UTC and merely shown in
+      -- a zone of that offset (`{time "Thu, 14 Apr 2016 17:12:25 GMT+3" RFC1123}` = 1460653945 = 17:12:25 UTC;
+      -- `buckettime … hour` prints hour 20).  Same rule as `Rare.C18.instantInN`.
       let o : Int := if n.length > 3 ∧ n.take 3 = C18.asc "GMT" then (C18.timeAtoi (n.drop 3)).getD 0 * 3600 else 0
-      pure ⟨wall - o, p.dt.ns, o, n⟩
+      pure ⟨wall, p.dt.ns, o, n⟩
   | .default => do
     let u ← dateResolve w loc wall
     let z ← lookupL w loc u
